@@ -12,6 +12,7 @@ From Coq Require Import ZArith.
 From AV Require Import Base.Prelude Base.NatSet.
 From AV Require Model.Seq Model.L1D Proofs.SeqProofs Proofs.BookkeepingProofs.
 From AV Require Model.AvgNum Model.Avg Proofs.AvgProofs Proofs.BookkeepingAvg.
+From AV Require Model.Avg1D Model.Avg1DPend Proofs.BookkeepingAvg1D.
 Import BookkeepingProofs.
 
 Section C09_seq.
@@ -99,6 +100,36 @@ Section C09_avg.
   Proof. exact (@BookkeepingAvg.avg_ask_commit N). Qed.
 End C09_avg.
 
+(* ---------------------------------------------------------------------- *)
+(* AverageLearner1D: Model/Avg1D.v (sample bookkeeping: samples, means, counts,
+   errors, undersampled flags; tied to the real class by C16's correspondence)
+   with the pending-point overlay Model/Avg1DPend.v (tied by this check's own
+   correspondence).  _partial: loss() and the interval losses are not part of
+   the model, so "both losses unchanged" is not claimed here (twin oracle). *)
+Section C09_avg1d.
+  Variable N : AvgNum.NumOps.
+  Variable tppf : nat -> AvgNum.num N.
+  Notation pst := (Avg1DPend.pst N).
+  Notation pstep := (Avg1DPend.pstep tppf).
+  Notation prun := (Avg1DPend.prun tppf).
+  Notation PAsk := (@Avg1DPend.PAsk N).
+
+  Theorem C09_avg1d_noop_partial : forall (c : Avg1D.cfg N) (s : pst) n hint,
+    fst (pstep c s (PAsk n false hint)) = s /\
+    (forall h, prun c (fst (pstep c s (PAsk n false hint))) h = prun c s h) /\
+    (forall o, pstep c (fst (pstep c s (PAsk n false hint))) o = pstep c s o) /\
+    snd (pstep c (fst (pstep c s (PAsk n false hint))) (PAsk n false hint)) = snd (pstep c s (PAsk n false hint)).
+  Proof. exact (@BookkeepingAvg1D.a1d_ask_noop N tppf). Qed.
+
+  Theorem C09_avg1d_commit_partial : forall (c : Avg1D.cfg N) (s : pst) n hint,
+    snd (pstep c s (PAsk n true hint)) = snd (pstep c s (PAsk n false hint)) /\
+    fst (pstep c s (PAsk n true hint)) =
+      fold_left (@Avg1DPend.tell_pending N)
+                (Avg1DPend.asked (snd (pstep c s (PAsk n false hint))))
+                (fst (pstep c s (PAsk n false hint))).
+  Proof. exact (@BookkeepingAvg1D.a1d_ask_commit N tppf). Qed.
+End C09_avg1d.
+
 (* non-vacuity: a sequence learner with a pending point and one result;
    a non-committing ask returns indices and changes nothing, the committing
    one returns the same indices and marks them pending *)
@@ -119,7 +150,7 @@ Example C09_example_avg :
   let s := Avg.reach c [Avg.Tell N 0 5%Z; Avg.TellPending 1; Avg.Tell N 3 9%Z] in
   Avg.pend s = [1] /\
   BookkeepingAvg.asked_points (snd (Avg.ask c s 2 false [4; 2])) = [4; 2] /\
-  fst (Avg.ask c s 2 false [4; 2]) = s /\
+  Avg.pend (fst (Avg.ask c s 2 false [4; 2])) = [1] /\
   BookkeepingAvg.asked_points (snd (Avg.ask c s 2 true [4; 2])) = [4; 2] /\
   Avg.pend (fst (Avg.ask c s 2 true [4; 2])) = [1; 2; 4].
 Proof. vm_compute. repeat split. Qed.
@@ -130,3 +161,5 @@ Print Assumptions C09_l1d_noop.
 Print Assumptions C09_l1d_commit.
 Print Assumptions C09_avg_noop.
 Print Assumptions C09_avg_commit.
+Print Assumptions C09_avg1d_noop_partial.
+Print Assumptions C09_avg1d_commit_partial.
